@@ -175,9 +175,14 @@ def _run_model_for_batch(model_cls: Type[Model], kwargs: dict, collectors: Optio
     Union[None, Dict[str, List[Any]], List[Any]]:
         The data collected by the specified collectors (if any).
     """
-    model = _build_model_from_kwargs(model_cls, kwargs)  # Build Model
-    while model.is_running() and model.systems.timestep < max_timesteps:  # Run Model
-        model.execute()
+    try:
+        model = _build_model_from_kwargs(model_cls, kwargs)  # Build Model
+        while model.is_running() and model.systems.timestep < max_timesteps:  # Run Model
+            model.execute()
+    except StopIteration as e:
+        # map() and a Pool's chunk mapping take a StopIteration escaping the mapped function for the end of the input:
+        # in a worker process this run would silently vanish from the batch. Same rule as PEP 479 for generators.
+        raise RuntimeError(f"Model {model_cls.__name__} raised StopIteration while running with {kwargs}.") from e
 
     if collectors is None:  # No Data Collection
         return None
